@@ -83,7 +83,9 @@ def check(c):
     per_image = 330 if c.tier == 'quick' else None
     for h, img in images:
         cases.append((h, 'valid', 0, img))
-        ms = S.mutants(img, r, positions=(20 if c.tier == 'quick' else None), limit=per_image)
+        small = len(img) <= 150
+        ms = S.mutants(img, r, positions=(None if (small or c.tier != 'quick') else 20),
+                       limit=(None if c.tier != 'quick' else (1200 if small else per_image)))
         for k, off, b in ms:
             cases.append((h, k, off, b))
     for _ in range(300 if c.tier == 'quick' else 5000):
